@@ -127,7 +127,7 @@ def plant(w, inst, depth=0):
 def run_case(sh, i, plan):
     rng = case_rng(sh, i)
     clear_typelib_caches(also_typing=True)
-    opts = U.Opts(depth=rng.choice([1, 2, 2, 3, plan["depth"]]))
+    opts = U.Opts(depth=rng.choice([1, 2, 2, 3, plan["depth"]]), none_members=True)
     prog, gen, roots = make_program(rng, opts, nroots=3)
     vg = U.ValueGen(rng)
     try:
